@@ -685,6 +685,8 @@ func ruleL9(c *Ctx) *RuleResult {
 				what = "io.Copy(w, …)"
 			case isFuncNamed(com.StaticCallee(), "io", "CopyN") && len(com.Args) > 0 && isResponseWriter(com.Args[0]):
 				what = "io.CopyN(w, …)"
+			case isFuncNamed(com.StaticCallee(), "io", "CopyBuffer") && len(com.Args) > 0 && isResponseWriter(com.Args[0]):
+				what = "io.CopyBuffer(w, …)"
 			}
 			if what == "" {
 				return
